@@ -8,7 +8,8 @@ META = dict(
     bounds="3 ciphers x 3 MACs x 2 KDFs enumerated (quick: a covering subset), one passphrase pair; configuration content length "
            "symbolic 0..65536 (all padding residues, incl. multiples of 16); scenarios: honest, wrong passphrase, one byte at a "
            "symbolic position altered in the wrapped-key ciphertext, its MAC, the encrypted configuration, its MAC",
-    outside=["the cryptography itself (idealised: perfect cipher / MAC / KDF)", "the key-safe grammar on arbitrary text "
+    outside=["altered ciphertext of an *empty* configuration (a forged padding block passes with probability 2^-8 by "
+             "construction of the format)", "the cryptography itself (idealised: perfect cipher / MAC / KDF)", "the key-safe grammar on arbitrary text "
              "(_split_list, URL quoting: a concrete skeleton per configuration is parsed by the real code)", "_parse_dictionary "
              "of the decrypted text (an opaque token; C18)", "several pairs per key safe"],
     assumptions=["AES-CBC decryption of Enc(K, IV, X) under (K, IV) yields X, anything else unconstrained bytes; a MAC/KDF "
